@@ -3,7 +3,26 @@
 //!                  [--seed N] [--replay-case <text>]
 mod host;
 mod util;
+mod c01;
+mod c02;
+mod c03;
+mod c04;
+mod c05;
+mod c06;
+mod c07;
+mod c08;
+mod c09;
+mod c10;
+mod c11;
+mod c12;
+mod c13;
+mod c14;
+mod c15;
+mod c16;
 mod c17;
+mod c18;
+mod c19;
+mod c20;
 
 use util::*;
 
@@ -47,7 +66,26 @@ fn main() {
     }
     let t0 = std::time::Instant::now();
     let mut rep = match prop.as_str() {
+        "C01" => c01::run(&o),
+        "C02" => c02::run(&o),
+        "C03" => c03::run(&o),
+        "C04" => c04::run(&o),
+        "C05" => c05::run(&o),
+        "C06" => c06::run(&o),
+        "C07" => c07::run(&o),
+        "C08" => c08::run(&o),
+        "C09" => c09::run(&o),
+        "C10" => c10::run(&o),
+        "C11" => c11::run(&o),
+        "C12" => c12::run(&o),
+        "C13" => c13::run(&o),
+        "C14" => c14::run(&o),
+        "C15" => c15::run(&o),
+        "C16" => c16::run(&o),
         "C17" => c17::run(&o),
+        "C18" => c18::run(&o),
+        "C19" => c19::run(&o),
+        "C20" => c20::run(&o),
         _ => {
             eprintln!("unknown property {}", prop);
             std::process::exit(2);
